@@ -19,9 +19,7 @@ func selftestDeterminism(args []string) int {
 	fams := map[string]bool{}
 	for _, p := range props() {
 		for _, f := range p.Families {
-			if !f.Enum {
-				fams[f.Name] = true
-			}
+			fams[f.Name] = true // enumeration families run with a case drawn from the seed
 		}
 	}
 	if len(args) > 1 {
